@@ -120,13 +120,30 @@ func (c15) Gen(rng *simrt.Rand, seed uint64, tier string) *Case {
 		row := Row{"id": fmt.Sprintf("r%03d", i), "k": k, "ts": int(ts), "p": []any{"x", "y", "z"}[rng.Intn(nparts)]}
 		ops = append(ops, Op{K: "emit", Row: row, Tag: row["id"].(string)})
 	}
-	if !mid {
+	twoProd := !mid && domain == "seq" && nparts >= 2 && rng.Bool(0.25)
+	if twoProd {
+		// two producers, each owning the partitions of one parity (a partition's arrival order is
+		// its owner's emission order), with an input buffer that grows while they emit
+		var a, b []Op
+		for _, op := range ops {
+			if op.K == "emit" && op.Row["p"] == "y" {
+				b = append(b, op)
+			} else {
+				a = append(a, op)
+			}
+		}
+		c.Clients = [][]Op{a, b}
+		c.X["two_producers"] = true
+	} else if !mid {
 		c.Clients = [][]Op{ops} // Stop follows once the pipeline is quiescent (see Run)
 	} else {
 		c.Clients = [][]Op{ops, {{K: "sleep", D: int64(time.Duration(rng.Intn(1500)) * time.Millisecond)}, {K: "stop"}}}
 	}
 	c.X["mid_stop"] = mid
 	perf := &PerfSpec{ResultChan: 64, Workers: 1 + rng.Intn(2), PoolSize: 2, Strategy: "block", BlockTimeout: int64(time.Hour), DataChan: 1 + rng.Intn(6)}
+	if twoProd {
+		perf = &PerfSpec{ResultChan: 64, Workers: 1 + rng.Intn(2), PoolSize: 2, Strategy: "expand", DataChan: 1 + rng.Intn(3), Growth: []float64{1.5, 2}[rng.Intn(2)], MinInc: 1 + rng.Intn(2), Threshold: []float64{0.8, 1.0}[rng.Intn(2)], MaxBuffer: 4*n + 16}
+	}
 	c.Insts = []InstSpec{{SQL: sql, Perf: perf, Sinks: []SinkSpec{{Mode: "sync"}}}}
 	adv := []time.Duration{time.Microsecond, time.Millisecond, 100 * time.Millisecond, time.Second}
 	if domain == "now" {
@@ -216,7 +233,12 @@ func (c15) Run(e *Env) {
 	parts := map[string][]ev{}
 	var partOrder []string
 	partOfID := map[string]string{}
-	for _, op := range e.C.Clients[0] {
+	emitOps := e.C.Clients[0]
+	if e.C.xBool("two_producers") {
+		emitOps = append(append([]Op{}, e.C.Clients[0]...), e.C.Clients[1]...) // disjoint partitions: per partition the order is its owner's
+		e.Probe("two_producers_growing_input_buffer")
+	}
+	for _, op := range emitOps {
 		if op.K != "emit" {
 			continue
 		}
